@@ -123,7 +123,7 @@ def create_formula(rep, add_formula):
                 raise RuntimeError("invalid temporal formula: {}".format(rep))
             rhs = create_formula(args[-1], add_formula)
             if rep.name == ">" or rep.name == ">:":
-                lhs = 1 if len(args) == 1 else create_number(args[0])
+                lhs = 1 if len(args) == 1 else create_offset(args[0])
                 return rhs if lhs == 0 else add_formula(TelNext(lhs, rhs, rep.name == ">:"))
             lhs = None if len(args) == 1 else create_formula(args[0], add_formula)
             if rep.name in (";>", ";>:"):
